@@ -902,3 +902,116 @@ Lemma lookup_via_rep cfg s c :
 Proof.
   rewrite lookup_is_reference. apply ref_lookup_class_invariant; intros p Hp; apply rep_spec; exact Hp.
 Qed.
+
+(* ====================================================================================== *)
+(* ---------- unparseable ranges: ignored today, rejected by the repaired validation ---------- *)
+
+(* what the code does today: a range whose svlan or cvlan string does not parse contributes no claim *)
+Lemma malformed_range_no_claims name i sv cv rest :
+  parse_vlan_range sv = None \/ parse_cvlan cv = None ->
+  range_claims name i ((sv, cv) :: rest) = range_claims name (S i) rest.
+Proof.
+  intros H. cbn [range_claims]. destruct (parse_vlan_range sv) as [svs|]; [|reflexivity].
+  destruct H as [H|H]; [discriminate|]. rewrite H. reflexivity.
+Qed.
+
+(* every range of every group parses *)
+Definition all_parse (cfg : config) : Prop :=
+  forall g r, In g cfg -> In r (snd g) -> range_ok r = true.
+
+Definition verdict_of (o : option (N * sel * str * str)) : verdict :=
+  match o with None => VOk | Some (s, se, p, n) => VCollision s se p n end.
+
+Definition is_claim (it : item) : bool := match it with IClaim _ => true | IBad _ _ _ => false end.
+
+Lemma strict_aux_claims cs : forall seen,
+  strict_aux seen (map IClaim cs) = verdict_of (validate_aux seen cs).
+Proof.
+  induction cs as [|c cs IH]; intros seen; cbn [map strict_aux validate_aux]; [reflexivity|].
+  destruct (find (key_eqb (c_svlan c) (c_sel c)) seen); [reflexivity|apply IH].
+Qed.
+
+Lemma strict_aux_ok_claims its : forall seen, strict_aux seen its = VOk -> forallb is_claim its = true.
+Proof.
+  induction its as [|[c|n i w] its IH]; intros seen; cbn [strict_aux forallb is_claim]; [reflexivity| |discriminate].
+  destruct (find (key_eqb (c_svlan c) (c_sel c)) seen); [discriminate|]. intros H. apply (IH _ H).
+Qed.
+
+Lemma group_items_ok name : forall rs i,
+  (forall r, In r rs -> range_ok r = true) -> group_items name i rs = map IClaim (range_claims name i rs).
+Proof.
+  induction rs as [|[sv cv] rs IH]; intros i H; [reflexivity|].
+  cbn [group_items range_claims]. rewrite map_app, <- IH by (intros r Hr; apply H; right; exact Hr).
+  f_equal. pose proof (H (sv, cv) (or_introl eq_refl)) as Hok. unfold range_ok, range_items in *. cbn [fst snd] in *.
+  destruct (parse_vlan_range sv); [|discriminate]. destruct (parse_cvlan cv); [|discriminate].
+  rewrite map_map. reflexivity.
+Qed.
+
+Lemma group_items_bad name : forall rs i,
+  forallb is_claim (group_items name i rs) = true -> forall r, In r rs -> range_ok r = true.
+Proof.
+  induction rs as [|r0 rs IH]; intros i H r Hr; [destruct Hr|].
+  cbn [group_items] in H. rewrite forallb_app in H. apply andb_true_iff in H as [H0 H1].
+  destruct Hr as [<-|Hr]; [|eapply IH; eauto].
+  unfold range_items, range_ok in *. destruct (parse_vlan_range (fst r0)); [|discriminate H0].
+  destruct (parse_cvlan (snd r0)); [reflexivity|discriminate H0].
+Qed.
+
+Lemma in_sort_groups cfg g : In g (sort_groups cfg) <-> In g cfg.
+Proof.
+  split; apply Permutation_in; [apply sort_groups_perm|apply Permutation_sym, sort_groups_perm].
+Qed.
+
+Lemma items_ok cfg : all_parse cfg -> items cfg = map IClaim (claims cfg).
+Proof.
+  unfold all_parse, items, claims, claims_sorted. intros H.
+  assert (H' : forall g r, In g (sort_groups cfg) -> In r (snd g) -> range_ok r = true)
+    by (intros g r Hg; apply H, in_sort_groups; exact Hg).
+  clear H. induction (sort_groups cfg) as [|g gs IH]; [reflexivity|].
+  cbn [flat_map]. rewrite map_app. f_equal.
+  - apply group_items_ok. intros r Hr. apply (H' g r (or_introl eq_refl) Hr).
+  - apply IH. intros g' r Hg'. apply H'. right; exact Hg'.
+Qed.
+
+Lemma items_all_claims cfg : forallb is_claim (items cfg) = true -> all_parse cfg.
+Proof.
+  unfold all_parse, items. intros H g r Hg Hr. apply in_sort_groups in Hg.
+  induction (sort_groups cfg) as [|g0 gs IH]; [destruct Hg|].
+  cbn [flat_map] in H. rewrite forallb_app in H. apply andb_true_iff in H as [H0 H1].
+  destruct Hg as [->|Hg]; [eapply group_items_bad; eauto|apply IH; assumption].
+Qed.
+
+(* on configurations without unparseable strings the repaired validation is today's validation *)
+Lemma strict_agrees cfg : all_parse cfg -> validate_strict cfg = verdict_of (validate cfg).
+Proof. intros H. unfold validate_strict, validate. rewrite (items_ok cfg H). apply strict_aux_claims. Qed.
+
+(* accepted iff every string parses and no two claims share a key *)
+Lemma strict_accepts_iff cfg :
+  validate_strict cfg = VOk <-> all_parse cfg /\ NoDup (map key (claims cfg)).
+Proof.
+  split.
+  - intros H. assert (A : all_parse cfg) by (apply items_all_claims; eapply strict_aux_ok_claims; exact H).
+    split; [exact A|]. apply validate_accepts_iff. rewrite (strict_agrees cfg A) in H.
+    destruct (validate cfg) as [[[[? ?] ?] ?]|]; [discriminate|reflexivity].
+  - intros [A N]. rewrite (strict_agrees cfg A). apply validate_accepts_iff in N. rewrite N. reflexivity.
+Qed.
+
+(* a configuration with an unparseable svlan or cvlan string is rejected *)
+Lemma strict_rejects_malformed cfg g r :
+  In g cfg -> In r (snd g) -> parse_vlan_range (fst r) = None \/ parse_cvlan (snd r) = None ->
+  validate_strict cfg <> VOk.
+Proof.
+  intros Hg Hr Hbad Hok. apply strict_accepts_iff in Hok as [A _].
+  specialize (A g r Hg Hr). unfold range_ok in A.
+  destruct (parse_vlan_range (fst r)); [|discriminate A].
+  destruct Hbad as [Hb|Hb]; [discriminate Hb|]. rewrite Hb in A. discriminate A.
+Qed.
+
+(* a reported malformed range is real *)
+Lemma strict_aux_malformed its : forall seen n i w,
+  strict_aux seen its = VMalformed n i w -> In (IBad n i w) its.
+Proof.
+  induction its as [|[c|n0 i0 w0] its IH]; intros seen n i w; cbn [strict_aux]; [discriminate| |].
+  - destruct (find (key_eqb (c_svlan c) (c_sel c)) seen); [discriminate|]. intros H. right. eapply IH; exact H.
+  - intros H; inversion H; subst. left; reflexivity.
+Qed.
